@@ -155,6 +155,21 @@ impl SecondaryTransaction {
             if !live_rowsets.is_some_and(|s| s.contains(&delete.rowset_id())) {
                 return Err(TracedStorageError::not_found("rowset", delete.rowset_id()));
             }
+            // ... and a row that a concurrent DELETE has deleted since the scan must not be
+            // deleted (and counted) a second time.
+            let already_deleted = self
+                .snapshot
+                .get_dvs_of(self.table.table_id(), delete.rowset_id())
+                .is_some_and(|dvs| {
+                    dvs.iter().any(|dv_id| {
+                        self.version
+                            .get_dv(self.table.table_id(), *dv_id)
+                            .contains(delete.row_id())
+                    })
+                });
+            if already_deleted {
+                return Err(TracedStorageError::not_found("row", delete.row_id()));
+            }
         }
 
         self.flush_rowset().await?;
